@@ -43,6 +43,7 @@ type vVar struct {
 	alen   int               // vA: exact length
 	keys   map[string]vType  // vO
 	korder []string          // vO: keys in declaration order
+	calls  bool              // function: its body calls other functions of the program (such a function is only called from outside function bodies: call chains stay two deep, so running time stays polynomial)
 	ro     bool              // loop counter or parameter used as index: never assigned
 	below  int               // vN loop counter: value is in [0, below)
 }
@@ -57,6 +58,8 @@ type vGen struct {
 	inFunc int
 	inputs int // top-level straight-line ইনপুট calls
 	stmts  int
+	madeCall bool // the function body being generated called a function of the program
+	noStrRefs bool // generating the right-hand side of an assignment to a string: no references to string variables or properties (s = s + s in a loop doubles the text every time)
 	pure   bool // no ইনপুট, no ক্লক (for oracles that compare runs under different clocks)
 }
 
@@ -101,6 +104,25 @@ func (g *vGen) visible(t vType) []*vVar {
 		}
 	}
 	return out
+}
+
+// pickFn picks a callable function of kind t: inside a function body only functions that call
+// nobody themselves.
+func (g *vGen) pickFn(t vType, label string) *vVar {
+	var c []*vVar
+	for _, v := range g.visible(t) {
+		if g.inFunc > 0 && v.calls {
+			continue
+		}
+		c = append(c, v)
+	}
+	if len(c) == 0 {
+		return nil
+	}
+	if g.inFunc > 0 {
+		g.madeCall = true
+	}
+	return c[g.s.Int(label, 0, len(c)-1)]
 }
 
 func (g *vGen) pickVar(t vType, label string) *vVar {
@@ -190,12 +212,12 @@ func (g *vGen) num(d int) string {
 		}
 		return FnAbs + "(" + g.num(d-1) + ")"
 	case 11:
-		if f := g.pickVar(vF1, "f1"); f != nil {
+		if f := g.pickFn(vF1, "f1"); f != nil {
 			return f.name + "(" + g.num(d-1) + ")"
 		}
 		return FnRound + "(" + g.num(d-1) + ")"
 	case 12:
-		if f := g.pickVar(vF0, "f0"); f != nil {
+		if f := g.pickFn(vF0, "f0"); f != nil {
 			return f.name + "()"
 		}
 		if g.pure {
@@ -230,7 +252,7 @@ func (g *vGen) num(d int) string {
 		}
 		return FnMax + "([1, 2, 3])"
 	default:
-		if o := g.pickVar(vO, "obj"); o != nil {
+		if o := g.pickVar(vO, "obj"); o != nil && g.inFunc == 0 {
 			for _, k := range o.korder {
 				if o.keys[k] == vF1 {
 					return o.name + "." + k + "(" + g.num(d-1) + ")"
@@ -259,7 +281,7 @@ func (g *vGen) index(n int) string {
 
 func (g *vGen) str(d int) string {
 	if d <= 0 {
-		if v := g.pickVar(vS, "strvar"); v != nil && Bool(g.s, "usevar") {
+		if v := g.pickVar(vS, "strvar"); v != nil && Bool(g.s, "usevar") && !g.noStrRefs {
 			return v.name
 		}
 		return Pick(g.s, "strlit", vStrLits)
@@ -268,7 +290,7 @@ func (g *vGen) str(d int) string {
 	case 0:
 		return Pick(g.s, "strlit", vStrLits)
 	case 1:
-		if v := g.pickVar(vS, "strvar"); v != nil {
+		if v := g.pickVar(vS, "strvar"); v != nil && !g.noStrRefs {
 			return v.name
 		}
 		return Pick(g.s, "strlit", vStrLits)
@@ -279,7 +301,7 @@ func (g *vGen) str(d int) string {
 	case 4:
 		return "(" + g.num(d-1) + " + " + g.str(d-1) + ")"
 	default:
-		if o := g.pickVar(vO, "obj"); o != nil {
+		if o := g.pickVar(vO, "obj"); o != nil && !g.noStrRefs {
 			for _, k := range o.korder {
 				if o.keys[k] == vS {
 					return o.name + "." + k
@@ -467,7 +489,10 @@ func (g *vGen) stmt(depth int) {
 			}
 		case 1:
 			if v := g.pickVar(vS, "strvar"); v != nil {
-				g.emit("%s = %s;", v.name, g.str(2))
+				g.noStrRefs = true
+				rhs := g.str(2)
+				g.noStrRefs = false
+				g.emit("%s = %s;", v.name, rhs)
 				return
 			}
 		default:
@@ -490,7 +515,10 @@ func (g *vGen) stmt(depth int) {
 			case vN:
 				g.emit("%s.%s = %s;", o.name, k, g.num(2))
 			case vS:
-				g.emit("%s.%s = %s;", o.name, k, g.str(2))
+				g.noStrRefs = true
+				rhs := g.str(2)
+				g.noStrRefs = false
+				g.emit("%s.%s = %s;", o.name, k, rhs)
 			case vB:
 				g.emit("%s.%s = %s;", o.name, k, g.boolean(2))
 			default:
@@ -521,7 +549,7 @@ func (g *vGen) stmt(depth int) {
 			g.emit("%s;", g.num(2))
 		}
 	case 11:
-		if f := g.pickVar(vF1, "f1"); f != nil {
+		if f := g.pickFn(vF1, "f1"); f != nil {
 			g.emit("%s(%s);", f.name, g.num(1))
 			return
 		}
@@ -572,6 +600,11 @@ func (g *vGen) stmt(depth int) {
 	case 22:
 		g.escapingFunction()
 	default:
+		if g.inFunc > 0 || g.inLoop > 0 {
+			// (recursion only where it runs once: inside loops and function bodies its cost multiplies)
+			g.emit("%s %s;", KwPrint, g.num(2))
+			return
+		}
 		g.boundedRecursion()
 	}
 }
@@ -617,8 +650,8 @@ func (g *vGen) funcDecl(depth int) {
 		g.declare(&vVar{name: params, t: vN})
 	}
 	g.inFunc++
-	savedLoop := g.inLoop
-	g.inLoop = 0
+	savedLoop, savedCall := g.inLoop, g.madeCall
+	g.inLoop, g.madeCall = 0, false
 	g.ind++
 	if depth > 0 {
 		g.body(depth, 3)
@@ -637,6 +670,11 @@ func (g *vGen) funcDecl(depth int) {
 		g.inFunc--
 		g.pop()
 		g.emit("}")
+		made := g.madeCall
+		g.madeCall = savedCall || made
+		if g.inFunc > 0 && made {
+			return // (not called from inside another function body: call chains stay two deep)
+		}
 		if arity == 1 {
 			g.emit("%s(%s);", name, g.num(1))
 			g.emit("%s %s(%s);", KwPrint, name, g.num(1))
@@ -651,7 +689,8 @@ func (g *vGen) funcDecl(depth int) {
 	g.inFunc--
 	g.pop()
 	g.emit("}")
-	g.declare(&vVar{name: name, t: t})
+	g.declare(&vVar{name: name, t: t, calls: g.madeCall || g.inFunc > 0})
+	g.madeCall = savedCall || g.madeCall
 }
 
 // closuresFromLoop: functions declared in a loop body, each closing over a
